@@ -42,6 +42,8 @@ PROP = {  # subject keyword -> (property, failing input)
  'a stretched array line keeps its newline': ('C29', "template ['a 1 2\\n','b 3\\n'], transfer_array([1,2.5,3,4.0],0,2,3) -> 'a 1 2.5 3 4.0b 3\\n'"),
  'forward-mode jax tangents of a single-input function': ('C34', "ExplicitFuncComp, declare_partials(method='jax'), one input of size 1: TypeError in jax.jvp"),
  'linear nearest-neighbor interpolation with collinear neighbors': ('C28', "NearestNeighbor(interpolant_type='linear') at a training input with collinear neighbours returned 4.4068 instead of 4.0; linearize ValueError for 1 input x 2 outputs"),
+ 'check_partials works on private copies': ('C13', "check_partials(method='fd', step=[0.5, 0.25]) on a dense partial: J_fd[0] is J_fd[1] (last step's values); constant val= partials overwritten by the approximation (second check reports zero error, compute_totals returns 2 instead of 5)"),
+ 'InterpND.gradient returns the derivative at the point': ('C16', 'akima 2-D table: interpolate(x); gradient(x) returns np.empty garbage for sub-dimensions ([[-2.127, 0.]] instead of [[-2.127, -2.983]]); gradient(x) after an in-place change of x returns the old gradient'),
  'check_partials reports every approximated nonzero': ('C13', 'diagonal-declared 4x4 with 8 off-diagonal nonzeros: rows/cols, coo, csc reported 2, csr none, diagonal=True raised KeyError'),
  'output solver options set from a distant ancestor': ('C08', "model.set_output_solver_options('g.d.x', ref0=0.5) two levels above the component -> TypeError in DefaultVector._set_scaling"),
  'CaseReader.get_case(int) resolves problem cases': ('C17', "record('first'); run_driver(); record('final'); get_case(<int>) returned the wrong case / IndexError"),
